@@ -29,6 +29,8 @@ type menuOpts struct {
 	// sysFlavours adds pause / unpause messages addressed to the shard-flavoured system account
 	// address (0xff..ff || shard id), the form the system contract's broadcast uses
 	sysFlavours bool
+	// undisciplined adds role messages the system contract's own discipline (A7) excludes
+	undisciplined bool
 }
 
 func held(w *world.World, a []byte, suffix string) int64 {
